@@ -25,6 +25,8 @@ def render_expr(e):
         return e[1]
     if k == "defined":
         return f"defined({e[1]})"
+    if k == "minus1":
+        return f"{e[1]} -1"         # valid (and different) whether the macro is undefined, a number, or defined empty
     if k == "not":
         return "!" + render_expr(e[1])
     if k == "paren":
@@ -47,6 +49,10 @@ def eval_expr(e, macros, depth=0):
         return macro_value(e[1], macros, depth)
     if k == "defined":
         return 1 if e[1] in macros else 0
+    if k == "minus1":
+        if macros.get(e[1]) == "":
+            return -1               # `#if -1` : the macro's replacement list is empty
+        return macro_value(e[1], macros, depth) - 1
     if k == "not":
         return 0 if eval_expr(e[1], macros) else 1
     if k == "paren":
